@@ -203,15 +203,17 @@ Proof.
   rewrite omap_interp_empty in F1. injection F1 as F1'. cbn [ocur oraw]. symmetry. exact F1'.
 Qed.
 
+Lemma is_zz_spec l : is_zz l = true -> l = [AInt 0; AInt 0].
+Proof.
+  destruct l as [|a [|b [|? ?]]]; try discriminate; destruct a; try discriminate; destruct b; try discriminate.
+  cbn [is_zz]. intros H. apply andb_true_iff in H as [H1 H2]. apply Z.eqb_eq in H1, H2. now subst.
+Qed.
+
 Lemma builtins_std_spec sc : builtins_std sc = true ->
   empty_msg sc timestamp_cls = AMsg [AInt 0; AInt 0] [] /\ empty_msg sc duration_cls = AMsg [AInt 0; AInt 0] [].
 Proof.
-  unfold builtins_std, empty_msg.
-  destruct (map empty_field (cfields (get_class sc timestamp_cls))) as [|[z| | | | | | |?|?|? ?] [|[z'| | | | | | |?|?|? ?] [|? ?]]]; try discriminate.
-  destruct z; try discriminate. destruct z'; try discriminate.
-  destruct (map empty_field (cfields (get_class sc duration_cls))) as [|[y| | | | | | |?|?|? ?] [|[y'| | | | | | |?|?|? ?] [|? ?]]]; try discriminate.
-  destruct y; try discriminate. destruct y'; try discriminate.
-  intros _. split; reflexivity.
+  unfold builtins_std, empty_msg. intros H. apply andb_true_iff in H as [H1 H2].
+  now rewrite (is_zz_spec _ H1), (is_zz_spec _ H2).
 Qed.
 
 Section MapStep.
